@@ -31,6 +31,7 @@ type GitScanner struct {
 	// only set by NewGitScannerForPush()
 	remote             string
 	skippedRefs        []string
+	noRemoteRefs       bool
 	foundLockable      GitScannerFoundLockable
 	potentialLockables GitScannerSet
 }
@@ -62,10 +63,12 @@ func NewGitScanner(cfg *config.Configuration, cb GitScannerFoundPointer) *GitSca
 // Needed for ScanMultiRangeToRemote(), and for ScanRefWithDeleted() when
 // used for a "git lfs push --all" command.
 func NewGitScannerForPush(cfg *config.Configuration, remote string, cb GitScannerFoundLockable, potentialLockables GitScannerSet) *GitScanner {
+	skippedRefs, noRemoteRefs := calcSkippedRefs(remote)
 	return &GitScanner{
 		cfg:                cfg,
 		remote:             remote,
-		skippedRefs:        calcSkippedRefs(remote),
+		skippedRefs:        skippedRefs,
+		noRemoteRefs:       noRemoteRefs,
 		foundLockable:      cb,
 		potentialLockables: potentialLockables,
 	}
